@@ -6,6 +6,8 @@ from . import parts
 def run(tier):
     ck = common.Check('C14', tier)
     res = parts.run_parts(ck, tier, ir_parts=('ir_growth',), rule_filter=lambda p, x: x.rule.startswith('R14'))
+    from .. import irrules
+    irrules.run_canaries(ck, {'ir_growth': [('R14.1', 'canary_exact_growth')]})
     r = res.get('ir_growth', [])
     ck.floor('complete paths judged', sum(x['res']['judged_paths'] for x in r), 8000 if tier == 'quick' else 80000)
     ck.finish(
